@@ -4,107 +4,8 @@
 package main
 
 import (
-	"flag"
-	"fmt"
-	"os"
-	"runtime/debug"
-
 	_ "verif/harness/internal/checks"
 	"verif/harness/internal/core"
 )
 
-func main() {
-	if len(os.Args) < 2 {
-		fmt.Fprintln(os.Stderr, "usage: check drive|shard|meta|list ...")
-		os.Exit(2)
-	}
-	switch os.Args[1] {
-	case "list":
-		for _, id := range core.IDs() {
-			fmt.Println(id)
-		}
-	case "meta":
-		fs := flag.NewFlagSet("meta", flag.ExitOnError)
-		prop := fs.String("prop", "", "")
-		tier := fs.String("tier", "quick", "")
-		fs.Parse(os.Args[2:]) //nolint:errcheck
-		spec := core.Lookup(*prop)
-		if spec == nil {
-			fmt.Println("unknown")
-			os.Exit(2)
-		}
-		if spec.Race != nil && spec.Race(*tier) {
-			fmt.Println("race")
-		} else {
-			fmt.Println("norace")
-		}
-	case "drive":
-		fs := flag.NewFlagSet("drive", flag.ExitOnError)
-		prop := fs.String("prop", "", "")
-		tier := fs.String("tier", "quick", "")
-		seed := fs.Int64("seed", 1, "")
-		root := fs.String("root", "/verif", "")
-		shardBin := fs.String("shardbin", os.Args[0], "")
-		race := fs.Bool("race", false, "")
-		replay := fs.String("replay", "", "")
-		fs.Parse(os.Args[2:]) //nolint:errcheck
-		spec := core.Lookup(*prop)
-		if spec == nil {
-			fmt.Printf("INCONCLUSIVE property=%s no such check\n", *prop)
-			os.Exit(2)
-		}
-		os.Exit(core.Drive(spec, core.DriveOpts{Tier: *tier, Seed: *seed, ShardBin: *shardBin, Root: *root, ReplayDir: *replay, RaceBinary: *race}))
-	case "shard":
-		fs := flag.NewFlagSet("shard", flag.ExitOnError)
-		prop := fs.String("prop", "", "")
-		tier := fs.String("tier", "quick", "")
-		seed := fs.Int64("seed", 1, "")
-		index := fs.Int("index", 0, "")
-		count := fs.Int("count", 1, "")
-		work := fs.String("work", "", "")
-		replayRoot := fs.String("replayroot", "", "")
-		resume := fs.String("resume-after", "", "")
-		witness := fs.String("witness", "", "")
-		replay := fs.String("replay", "", "")
-		fs.Parse(os.Args[2:]) //nolint:errcheck
-		spec := core.Lookup(*prop)
-		if spec == nil {
-			os.Exit(2)
-		}
-		debug.SetMaxStack(256 << 20)
-		s, err := core.NewShard(*prop, *tier, *seed, *index, *count, *work, *replayRoot, *resume)
-		if err != nil {
-			fmt.Fprintln(os.Stderr, err)
-			os.Exit(2)
-		}
-		switch {
-		case *witness != "":
-			root := os.Getenv("VERIF_ROOT")
-			fl, err := core.LoadFindings(root+"/known_findings.json", *prop)
-			if err != nil {
-				fmt.Fprintln(os.Stderr, err)
-				os.Exit(2)
-			}
-			for _, f := range fl {
-				if f.ID == *witness {
-					s.Begin("witness/" + f.ID)
-					ok, detail := spec.Witness(s, f)
-					s.WitnessVerdict(f.ID, ok, detail)
-				}
-			}
-		case *replay != "":
-			if spec.Replay == nil {
-				fmt.Fprintln(os.Stderr, "no replay for this property")
-				os.Exit(2)
-			}
-			s.Begin("replay")
-			spec.Replay(s, *replay)
-		default:
-			spec.Run(s)
-		}
-		s.Close()
-	default:
-		fmt.Fprintln(os.Stderr, "unknown subcommand")
-		os.Exit(2)
-	}
-}
+func main() { core.Main() }
